@@ -990,6 +990,36 @@ func genEqhash(c *hx.Ctx) {
 			}
 		}
 	}
+	// every number kind: all ordered pairs over its boundary values of both signs (the total-order laws
+	// for each comparable kind: <, <=, >, >= on operands of equal and of opposite sign, at min and max)
+	for _, k := range eqhNumKinds {
+		info := numv.Of(k)
+		var vals []*big.Int
+		add := func(x *big.Int) {
+			if x != nil && info.InRange(x) {
+				vals = append(vals, x)
+			}
+		}
+		for _, n := range []int64{-2, -1, 0, 1, 2} {
+			add(big.NewInt(n))
+		}
+		add(info.Min())
+		add(info.Max())
+		if mn := info.Min(); mn != nil {
+			add(new(big.Int).Add(mn, big.NewInt(1)))
+		}
+		if mx := info.Max(); mx != nil {
+			add(new(big.Int).Sub(mx, big.NewInt(1)))
+		}
+		add(new(big.Int).Lsh(big.NewInt(1), 63))
+		add(new(big.Int).Neg(new(big.Int).Lsh(big.NewInt(1), 63)))
+		add(new(big.Int).Lsh(big.NewInt(1), 64))
+		for _, a := range vals {
+			for _, b := range vals {
+				c.Emit("eqhash", "pair", eqhNum(k, a).String(), eqhNum(k, b).String())
+			}
+		}
+	}
 	for i := 0; i < c.N; i++ {
 		var a *sx
 		script := r.Chance(12)
